@@ -30,7 +30,11 @@ impl fmt::Debug for TokenLocation {
     fn fmt(&self, f: &mut fmt::Formatter<'_>) -> fmt::Result {
         writeln!(f, "{}:{}:{}", self.filename, self.line + 1, self.col + 1)?;
         writeln!(f, "{}", self.whole_line)?;
-        write!(f, "{:->1$}", '^', self.col + 1)
+        // (a width argument of the formatter is limited to 16 bits)
+        for _ in 0..self.col {
+            f.write_str("-")?;
+        }
+        f.write_str("^")
     }
 }
 
